@@ -37,6 +37,7 @@ type c14Backend struct {
 	seen  map[string]int
 	calls int
 	delay time.Duration // latency of the directory (LDAP / Okta are network services)
+	probe func()        // runs inside every lookup (the ordering probe reads the limiter here)
 }
 
 func (b *c14Backend) PasswordAuthenticate(username string, password []byte) (bool, error) {
@@ -44,7 +45,11 @@ func (b *c14Backend) PasswordAuthenticate(username string, password []byte) (boo
 	b.seen[username]++
 	b.calls++
 	d := b.delay
+	pr := b.probe
 	b.mu.Unlock()
+	if pr != nil {
+		pr()
+	}
 	if d > 0 {
 		time.Sleep(d)
 	}
@@ -465,6 +470,80 @@ func TestVerif_C14(t *testing.T) {
 		if o.status != http.StatusTooManyRequests && o.good && o.status >= 400 {
 			res.hit(verifHit{Key: "C14:harness:good-login-refused:" + o.entry, Oracle: "harness", What: fmt.Sprintf("%s with the right password answered %d", o.entry, o.status), Case: o.entry})
 		}
+	}
+	// phase 0: the ORDER of the two calls, probed dynamically: a limiter that practically never refills
+	// (1000 tokens, one more per 10^6 s) and a backend that reads the limiter while it is being asked —
+	// when the lookup runs, this attempt's token must already be gone.  Every entry point, right and
+	// wrong password.
+	{
+		oenv := verifSetup(t, func(c *AppConfigFile, dir string) {
+			c.Base.AllowedAuthBackendsForWebUI = []string{"password"}
+			c.Base.AllowedAuthBackendsForCerts = []string{"U2F"}
+		})
+		lim := rate.NewLimiter(rate.Limit(1e-6), 1000)
+		oenv.state.passwordAttemptGlobalLimiter = lim
+		var atBackend []float64
+		ob := &c14Backend{seen: map[string]int{}}
+		ob.probe = func() { atBackend = append(atBackend, lim.Tokens()) }
+		oenv.state.passwordChecker = ob
+		round := func(f float64) int64 { return int64(math.Floor(f + 0.5)) }
+		coq.WriteString("(* ordering probe: (tokens before the request, tokens the backend saw during its lookup, tokens after) *)\nDefinition ord_cases : list (Z * Z * Z) := [")
+		first := true
+		for _, entry := range []string{"form", "login-basic", "checkauth-basic"} {
+			for _, good := range []bool{false, true} {
+				user := newUser()
+				pw := "bad"
+				if good {
+					pw = "good-" + user
+				}
+				var req *http.Request
+				switch entry {
+				case "form":
+					f := url.Values{}
+					f.Set("username", user)
+					f.Set("password", pw)
+					req = verifNewRequest("POST", "/api/v0/login", f)
+				case "login-basic":
+					req = verifNewRequest("POST", "/api/v0/login", url.Values{})
+					req.SetBasicAuth(user, pw)
+				default:
+					req = verifNewRequest("GET", profilePath, nil)
+					req.SetBasicAuth(user, pw)
+				}
+				atBackend = nil
+				before := lim.Tokens()
+				rr, _ := oenv.serve(req)
+				after := lim.Tokens()
+				res.eval(fmt.Sprintf("order|%s|%v|%d|%d", entry, good, rr.Code, len(atBackend)), true)
+				res.bump("handler:order-probe")
+				if len(atBackend) != 1 {
+					res.hit(verifHit{Key: "C14:handler:backend-calls:" + entry, Oracle: "an attempt that is let through reaches the backend exactly once",
+						What: fmt.Sprintf("%s attempt on a full limiter: %d backend invocations (status %d)", entry, len(atBackend), rr.Code), Case: map[string]interface{}{"entry": entry, "phase": "order"}})
+					continue
+				}
+				if atBackend[0] > before-0.5 {
+					res.hit(verifHit{Key: "C14:handler:backend-before-limiter:" + entry, Oracle: "the limiter is consulted (and charged) before the password backend is asked",
+						What: fmt.Sprintf("%s attempt: the limiter held %.3f tokens before the request and still %.3f while the backend was looking the password up (%.3f after the request)", entry, before, atBackend[0], after),
+						Case: map[string]interface{}{"entry": entry, "phase": "order", "good_password": good}})
+				}
+				if !first {
+					coq.WriteString(";")
+				}
+				first = false
+				coq.WriteString(fmt.Sprintf("(%d,%d,%d)", round(before), round(atBackend[0]), round(after)))
+				idx.WriteString(fmt.Sprintf("order %s good=%v\t%.3f %.3f %.3f\n", entry, good, before, atBackend[0], after))
+			}
+		}
+		coq.WriteString(`].
+Definition ord_cfg := mkcfg 1 1000000 1000.
+Definition ord_bad (x : Z * Z * Z) : bool :=
+  let '(before, seen, after) := x in
+  let s := {| last := 0; T := before * C ord_cfg |} in
+  let r := login_step ord_cfg s Form 0 PwBad in
+  negb (backend_called (snd r) && (T (fst r) =? seen * C ord_cfg) && (T (fst r) =? after * C ord_cfg)).
+Definition c14_order_mismatches := Eval vm_compute in mismatches ord_bad ord_cases.
+Print c14_order_mismatches.
+`)
 	}
 	var seq []hObs
 	// phase 1: a sequential burst over all entry points (fresh bucket), then a pause, then more
